@@ -13,6 +13,9 @@
                      (parse_*_c, validate_*_c, fmt_c) and of the printers, the vocabulary of the
                      oracle calls (oreq, oview, cb_effect, onorm) with the static facts about
                      Fsm.call_h (call_h_effect, run_cb), the handler calls (hcall)
+                     fourth pass: the getters (cdesc_of: the descriptor as C sees it, bufptr /
+                     strptr / ptr_add, atcmd_ptr / unsol_ptr / cur_ptr / left_space, the region
+                     lemma generated_regions, tie_getter)
    3. state_eqb ...  decidable comparison of states, and the deterministic families of concrete
                      states on which a FAILED tie is evaluated to find a witness (diagnosis only:
                      nothing in section 3 is used by a tie theorem)
@@ -661,6 +664,112 @@ Lemma set_st_same : forall w : world, set_st (st w) w = w.
 Proof. intros []. reflexivity. Qed.
 End Callbacks.
 
+(* ---- fourth pass: THE GETTERS.  get_atcmd_buf_size / get_unsolicited_buf_size / get_atcmd_buf /
+        get_unsolicited_buf read the application's descriptor; get_var_by_fsm, get_new_line_chars,
+        get_left_buffer_space_by_fsm, get_current_buffer_by_fsm read the object.  They are generated as
+        pure functions (option: None = NULL / a size_t subtraction that would wrap around).
+
+        The descriptor as C sees it.  Defs.desc has ONE field for the event buffer, d_ubuf_size : option
+        nat (None = shared working buffer); struct cat_descriptor has two, unsolicited_buf (NULL =
+        shared) and unsolicited_buf_size, and when unsolicited_buf is NULL the other field holds
+        whatever the application left there.  cdesc_of D junk is that C view: `junk` stands for the
+        value of unsolicited_buf_size in shared mode, and every tie is proved for ALL junk (a getter
+        that reads the field in shared mode cannot be tied). ---- *)
+Record cdesc := mkCdesc {
+  cd_buf_size : nat;           (* desc->buf_size                                              *)
+  cd_ubuf : bool;              (* desc->unsolicited_buf != NULL                               *)
+  cd_ubuf_size : nat }.        (* desc->unsolicited_buf_size                                  *)
+Definition cdesc_of (D : desc) (junk : nat) : cdesc :=
+  match d_ubuf_size D with
+  | Some n => mkCdesc (d_buf_size D) true n
+  | None => mkCdesc (d_buf_size D) false junk
+  end.
+(* A `char *` into one of the two arrays of the descriptor: which array, and the offset in it.  As
+   for every pointer value, NULL is None.  A pointer into a string literal: the bytes of the literal
+   (without the terminating NUL) and the offset. *)
+Inductive bufbase := PB_buf | PB_ubuf.          (* desc->buf / desc->unsolicited_buf *)
+Definition bufptr : Type := (bufbase * nat)%type.
+Definition strptr : Type := (list N * nat)%type.
+Definition cd_buf_ptr (v : cdesc) : option bufptr := Some (PB_buf, 0).       (* cat_init asserts buf != NULL *)
+Definition cd_ubuf_ptr (v : cdesc) : option bufptr := if cd_ubuf v then Some (PB_ubuf, 0) else None.
+(* &p[n] / p + n *)
+Definition ptr_add {B : Type} (p : option (B * nat)) (n : nat) : option (B * nat) :=
+  match p with Some (b, o) => Some (b, o + n) | None => None end.
+
+(* What the MODEL says about these pointers (Defs.v: the command machine works in the first asz_of D
+   bytes of buf; the event machine in usz_of D bytes at offset uoff_of D of buf in shared mode, in
+   unsolicited_buf otherwise): the terms the calls get_atcmd_buf(self) / get_unsolicited_buf(self)
+   are mapped to. *)
+Definition atcmd_ptr (D : desc) : option bufptr := Some (PB_buf, 0).
+Definition unsol_ptr (D : desc) : option bufptr :=
+  match d_ubuf_size D with Some _ => Some (PB_ubuf, 0) | None => Some (PB_buf, uoff_of D) end.
+Definition buf_ptr (D : desc) (f : fsm) : option bufptr :=
+  match f with ATCMD => atcmd_ptr D | UNSOL => unsol_ptr D end.
+(* get_current_buffer_by_fsm: (region of the machine, its position) *)
+Definition cur_ptr (D : desc) (f : fsm) (s : state) : option bufptr := ptr_add (buf_ptr D f) (g_pos f s).
+(* get_left_buffer_space_by_fsm: size - position on size_t.  The model computes on nat; C wraps
+   around when position > size.  The truncation is made explicit: None (outside the envelope, the
+   printing helpers of Codec.v test `length buf <? pos` first and fault) *)
+Definition left_space (f : fsm) (s : state) : option nat :=
+  if g_pos f s <=? g_bsz f s then Some (g_bsz f s - g_pos f s) else None.
+(* get_var_by_fsm returns self->var / self->unsolicited_fsm.var, which the model keeps as an INDEX
+   into the variables of the current command (Defs.k_var / u_var, accessor Defs.g_var); var_of above is
+   the descriptor found through it *)
+Lemma var_of_g_var : forall D f s,
+  var_of D f s = match cmd_of D f s with Some c => nth_error (c_vars c) (g_var f s) | None => None end.
+Proof. reflexivity. Qed.
+(* get_new_line_chars returns a pointer into the literal CR LF NUL.  strptr_view = the bytes from the
+   pointer to the end of the array (terminating NUL included): it fixes both uses of the pointer, as a
+   C string that is printed (Fsm.nl_chars) and as self->write_buf read byte by byte (Fsm.wbuf_char). *)
+Definition strptr_view (p : strptr) : list N := skipn (snd p) (fst p ++ [0%N]).
+Definition nl_view (cr : bool) : list N := if cr then [ch_CR; ch_LF; 0%N] else [ch_LF; 0%N].
+Lemma nl_view_chars : forall s, nl_view (k_cr (k s)) = nl_chars s ++ [0%N].
+Proof. intros s. unfold nl_view, nl_chars. destruct (k_cr (k s)); reflexivity. Qed.
+Lemma nl_view_wbuf : forall b main p, wbuf_char (WB_NL b) main p = nth_error (nl_view b) p.
+Proof. intros [] main p; reflexivity. Qed.
+
+(* The sizes at initialisation: the mapping table reads get_atcmd_buf_size(self) as Defs.asz s (the
+   length of the model's working buffer); the tie of the getter is about the descriptor (asz_of D).
+   They agree from cat_init on (the model never changes the length of a buffer). *)
+Lemma sizes_at_init : forall D m, asz (init_state D m) = asz_of D /\ usz (init_state D m) = usz_of D.
+Proof. intros D m. unfold asz, usz, init_state. cbn [cbuf ubuf]. rewrite !repeat_length. split; reflexivity. Qed.
+
+(* THE REGION LEMMA.  What the model relies on when it keeps the two working buffers as two separate
+   lists: the command region starts at buf and lies inside buf; in shared mode the event region lies
+   inside buf too and begins at or after the end of the command region; with a separate event buffer
+   it lies inside unsolicited_buf.  regions_ok is stated on the RESULTS of the four getters;
+   generated_regions derives it from the four ties, so the conclusion is about the generated functions. *)
+Definition regions_ok (D : desc) (asize usize : nat) (ap up : bufptr) : Prop :=
+  fst ap = PB_buf /\ snd ap + asize <= d_buf_size D /\
+  match d_ubuf_size D with
+  | None => fst up = PB_buf /\ snd ap + asize <= snd up /\ snd up + usize <= d_buf_size D
+  | Some n => fst up = PB_ubuf /\ snd up + usize <= n
+  end.
+Definition regions_spec (D : desc) (gas gus : option nat) (gap gup : option bufptr) : Prop :=
+  exists a u pa pu, gas = Some a /\ gus = Some u /\ gap = Some pa /\ gup = Some pu /\ regions_ok D a u pa pu.
+Lemma div2_twice : forall n, Nat.div2 n + Nat.div2 n <= n.
+Proof.
+  intros n. destruct (Nat.Even_Odd_dec n) as [E|O].
+  - pose proof (Nat.Even_double n E) as H. unfold Nat.double in H. lia.
+  - pose proof (Nat.Odd_double n O) as H. unfold Nat.double in H. lia.
+Qed.
+Lemma model_regions_shared : forall D, d_ubuf_size D = None ->
+  asz_of D <= uoff_of D /\ uoff_of D + usz_of D <= d_buf_size D.
+Proof.
+  intros D H. unfold asz_of, usz_of, uoff_of. rewrite H. split; [apply Nat.le_refl | apply div2_twice].
+Qed.
+Lemma generated_regions : forall (D : desc) (gas gus : option nat) (gap gup : option bufptr),
+  gas = Some (asz_of D) -> gus = Some (usz_of D) -> gap = atcmd_ptr D -> gup = unsol_ptr D ->
+  regions_spec D gas gus gap gup.
+Proof.
+  intros D gas gus gap gup -> -> -> ->. unfold regions_spec, atcmd_ptr, unsol_ptr.
+  pose proof (div2_twice (d_buf_size D)) as Hd.
+  exists (asz_of D), (usz_of D), (PB_buf, 0),
+         (match d_ubuf_size D with Some _ => (PB_ubuf, 0) | None => (PB_buf, uoff_of D) end).
+  unfold regions_ok, asz_of, usz_of, uoff_of.
+  destruct (d_ubuf_size D) as [n|]; cbn [fst snd]; repeat split; lia.
+Qed.
+
 (* ====================================================================================== *)
 (* 2. tie_auto                                                                            *)
 (* ====================================================================================== *)
@@ -962,6 +1071,64 @@ Ltac tie_wloop n :=
   [ wloop_step_cbn; tie_unfold_gen; tie_unfold_light; cbv delta [ev_match]; tie_go 40
   | wloop_step_cbn; tie_unfold_gen; cbv beta zeta; rewrite ?IH; tie_unfold_light;
     cbv delta [ev_match]; tie_go 60 ].
+
+(* ---- tie_getter: the getters (fourth pass).  Goal: g_f D [junk] [fsm] s = <model term>.  Method:
+        unfold the head of the generated side and the vocabulary of the getters on both sides; split
+        once on every scrutinee a side is stuck on (d_ubuf_size D, the fsm, cr_flag, a comparison:
+        tie_stuck / tie_split as in tie_auto); at a leaf both sides are the same up to
+        x / 2 = Nat.div2 x  (C: x >> 1; Nat.div2_div, for all x) and linear arithmetic with division
+        by literals (getter_div_facts, lia). ---- *)
+Ltac getter_unfold :=
+  cbv delta [asz_of usz_of uoff_of cdesc_of cd_buf_ptr cd_ubuf_ptr ptr_add atcmd_ptr unsol_ptr buf_ptr
+             cur_ptr left_space nl_chars nl_view strptr_view option_map
+             g_pos g_bsz g_buf g_var g_cmd g_index asz usz];
+  cbv beta.
+Ltac getter_norm :=
+  cbv beta iota zeta delta [cd_buf_size cd_ubuf cd_ubuf_size fst snd negb andb orb];
+  tie_cbn.
+(* x / c for a literal c: the two facts that define it, for lia (which takes x / c and x mod c as atoms) *)
+Ltac getter_div_facts :=
+  repeat match goal with
+  | |- context [?x / ?c] =>
+    lazymatch goal with
+    | _ : x = c * (x / c) + x mod c |- _ => fail
+    | _ => pose proof (Nat.div_mod x c ltac:(discriminate));
+           assert (x mod c < c) by (apply Nat.mod_upper_bound; discriminate)
+    end
+  end.
+Ltac getter_arith :=
+  rewrite ?Nat.div2_div in *; rewrite ?Nat.add_0_l, ?Nat.add_0_r in *;
+  first [ reflexivity | getter_div_facts; lia ].
+Ltac getter_leaf :=
+  first [ reflexivity
+        | rewrite ?Nat.div2_div, ?Nat.add_0_l, ?Nat.add_0_r; reflexivity
+        | repeat f_equal; getter_arith
+        | exfalso; first [ congruence | getter_arith ] ].
+Ltac getter_go n :=
+  getter_norm;
+  lazymatch goal with
+  | |- ?L = ?R =>
+    tryif (let x := tie_stuck L in idtac) then (let x := tie_stuck L in getter_next n x)
+    else tryif (let x := tie_stuck R in idtac) then (let x := tie_stuck R in getter_next n x)
+    else getter_leaf
+  end
+with getter_next n x :=
+  lazymatch n with
+  | O => fail "tie_getter: out of fuel"
+  | S ?n' => tie_split x; getter_go n'
+  end.
+(* the region property proved directly on the generated getters (used when one of the four getters no
+   longer equals the model's, but the regions it describes are still disjoint and inside the arrays) *)
+Ltac regions_direct :=
+  unfold regions_spec, regions_ok; tie_unfold_gen; getter_unfold;
+  match goal with |- context [d_ubuf_size ?D] => destruct (d_ubuf_size D) end;
+  getter_norm; do 4 eexists; repeat split; cbn [fst snd]; getter_arith.
+Ltac tie_getter :=
+  intros;
+  lazymatch goal with |- ?L = _ => tie_unfold_head L end;
+  tie_unfold_gen;
+  getter_unfold;
+  getter_go 12.
 
 (* ====================================================================================== *)
 (* 3. Diagnosis of a failed tie: concrete states                                          *)
@@ -1393,3 +1560,35 @@ Definition states_call : list state :=
   |> vary [0; 1] setk_position |> vary [0; 3] setu_position
   |> vary [repeat 7%N 2; repeat 7%N 5] set_cbuf |> vary [repeat 7%N 3; repeat 7%N 6] set_ubuf.
 Definition fam_call : list (fsm * (nat * state)) := list_prod [ATCMD; UNSOL] (list_prod [0; 1] states_call).
+
+(* ---- the getters (fourth pass): descriptors with every small buffer size (odd and even), shared /
+        separate event buffer of several sizes, two values of the unused field; the witness of a
+        failed tie is the descriptor (printed in full) and that value ---- *)
+Definition sdesc (b : nat) (u : option nat) : desc := mkDesc [] [] b u 0%N 1 false.
+Definition fam_desc : list (desc * nat) :=
+  list_prod (map (fun x => sdesc (fst x) (snd x))
+                 (list_prod [0; 1; 2; 3; 4; 5; 7; 8; 9; 64] [None; Some 0; Some 3; Some 16]))
+            [0; 5].
+Definition bufbase_eqb (x y : bufbase) : bool :=
+  match x, y with PB_buf, PB_buf | PB_ubuf, PB_ubuf => true | _, _ => false end.
+Definition bufptr_eqb (x y : bufptr) : bool := bufbase_eqb (fst x) (fst y) && (snd x =? snd y).
+(* the region property, decided on concrete results (diagnosis of buffer_regions) *)
+Definition regions_okb (D : desc) (gas gus : option nat) (gap gup : option bufptr) : bool :=
+  match gas, gus, gap, gup with
+  | Some a, Some us, Some pa, Some pu =>
+    bufbase_eqb (fst pa) PB_buf && (snd pa + a <=? d_buf_size D) &&
+    match d_ubuf_size D with
+    | None => bufbase_eqb (fst pu) PB_buf && (snd pa + a <=? snd pu) && (snd pu + us <=? d_buf_size D)
+    | Some n => bufbase_eqb (fst pu) PB_ubuf && (snd pu + us <=? n)
+    end
+  | _, _, _, _ => false
+  end.
+(* states for the getters that read the object: both machines, positions inside / at the end of /
+   beyond the buffers, both values of cr_flag, different variable indices on the two machines *)
+Definition states_getter : list state :=
+  [base_state; pattern 1 base_state; pattern 2 base_state; pattern 3 base_state]
+  |> vary [0; 1; 3; 9] setk_position |> vary [0; 2; 4; 5] setu_position
+  |> vary [[]; [7%N]; [1%N; 2%N; 3%N]] set_cbuf
+  |> vary [0; 2] setk_var.
+Definition fam_getter : list (nat * state) := list_prod [0; 1] states_getter.
+Definition fam_getter_f : list (fsm * (nat * state)) := list_prod [ATCMD; UNSOL] fam_getter.
